@@ -790,6 +790,30 @@ fn scratch_file(name: &str) -> String {
     base.join(format!("fqv-{}-{name}", std::process::id())).to_string_lossy().to_string()
 }
 
+/// C18 through ImageBuilder: explicit size, gap and position (x different from y, all over the symbol), three frame shapes; the file the
+/// reference names does not exist, so the frame stays visible.  Integer scale, square modules: every cell centre is judged.
+pub fn rasterframes(sink: &mut Sink, seed: u64, thorough: bool) {
+    let mut r = rng(seed, 29);
+    for (vi, v) in [3usize, 7, 2].into_iter().enumerate() {
+        let qr = qr_of(v, seed + 11);
+        let n = qr.size as f64;
+        for i in 0..(if thorough { 60 } else { 12 }) {
+            let m = [2usize, 0, 4][i % 3];
+            let size = [3.0, 5.0, 7.0, 4.5, 9.0][i % 5];
+            let gap = [1.0, 0.5, 2.0, 1.5][i % 4];
+            let lo = m as f64 + size / 2.0 + gap; let hi = m as f64 + n - size / 2.0 - gap;
+            let q4 = |x: f64| (x * 4.0).round() / 4.0;
+            let (mut x, mut y) = (q4(r.gen_range(lo..hi)), q4(r.gen_range(lo..hi)));
+            if (x - y).abs() < 3.0 { if x + 4.0 < hi { x += 4.0 } else { y = (y - 4.0).max(lo) } }
+            let cells = (qr.size + 2 * m) as u32;
+            let p = vec![Call::Margin(m), Call::Shape(0), Call::Image("no-such-file.png".into()), Call::ImageBackgroundColor(vec![200, 30, 40, 255]), Call::ImageBackgroundShape((i + vi) % 3),
+                         Call::ImageSize(size), Call::ImageGap(gap), Call::ImagePosition(x, y), Call::FitWidth(4 * cells)];
+            let id = sink.id();
+            sink.emit(&raster_event(id, &format!("rasterframe:{v}:{}", (i + vi) % 3), &qr, &p));
+        }
+    }
+}
+
 // ------------------------------------------------------------------ custom shape callbacks (C15: "custom shape callbacks ... see a correct map")
 /// The callback encodes the type label it is handed into the height of the sub-path it returns: v.{type+1}
 fn label_callback(y: usize, x: usize, m: fast_qr::Module) -> String {
